@@ -577,7 +577,7 @@ func TestVerifRequestLoop(t *testing.T) {
 	// several callers at once; all of them report the outage at the same instant (they are held at the entry of
 	// MarkUnavailable until the last one has arrived). Exactly one of them may win and start the establisher.
 	for _, n := range []int{2, 4, 8, 16, 32} {
-		for rep2 := 0; rep2 < 40; rep2++ {
+		for rep2 := 0; rep2 < 80; rep2++ {
 			verifsim.Bubble(t, func(t *testing.T) {
 				name := fmt.Sprintf("W6/%d-callers-report-the-same-outage-at-once/%d", n, rep2)
 				e := newRLEnv(1, 2)
